@@ -711,13 +711,18 @@ func (f *farm) serve(b *backend) {
 			if !up {
 				return
 			}
-			if _, err := readFrame(c); err != nil { // handshake
+			hsFrame, err := readFrame(c) // handshake
+			if err != nil {
 				return
 			}
+			// the answer depends on the protocol number the backend is pinged with: echo it
+			hr := strings.NewReader(string(hsFrame))
+			_, _ = util.ReadVarInt(hr) // packet id
+			pinged, _ := util.ReadVarInt(hr)
 			if _, err := readFrame(c); err != nil { // status request
 				return
 			}
-			js := fmt.Sprintf(`{"version":{"name":"x","protocol":765},"players":{"max":1,"online":0},"description":{"text":"B%d#%d"}}`, b.idx, n)
+			js := fmt.Sprintf(`{"version":{"name":"x","protocol":765},"players":{"max":1,"online":0},"description":{"text":"B%d#%d@%d"}}`, b.idx, n, pinged)
 			var body strings.Builder
 			_ = util.WriteVarInt(&body, 0)
 			_ = util.WriteString(&body, js)
@@ -811,12 +816,22 @@ func (f *farm) ping(sm *lite.StrategyManager, rg uint64, protocol int, ttl time.
 	}
 	if i := strings.Index(d, "B"); i >= 0 {
 		rest := d[i+1:]
-		var bi, n int
-		if _, e := fmt.Sscanf(strings.NewReplacer("#", " ", "\"", " ", "}", " ").Replace(rest), "%d %d", &bi, &n); e == nil {
-			return fmt.Sprintf("backend %d %d", bi, n)
+		var bi, n, pp int
+		if _, e := fmt.Sscanf(strings.NewReplacer("#", " ", "@", " ", "\"", " ", "}", " ").Replace(rest), "%d %d %d", &bi, &n, &pp); e == nil {
+			return fmt.Sprintf("backend %d %d @%d", bi, n, pp)
 		}
 	}
 	return "unknown-status"
+}
+
+// protocol numbers in pairs that a lookup in Gate's version table would not tell apart
+var unlistedPairs = [][2]int{{777, 778}, {0x40000100, 0x40000101}, {48, 49}, {-5, -6}, {2147483647, 100}, {0, 1}, {765, 9999}}
+
+func pickProto(r *hx.Rng) int {
+	if r.Chance(2, 5) {
+		return hx.Pick(r, unlistedPairs)[r.Intn(2)]
+	}
+	return hx.Pick(r, []int{765, 47})
 }
 
 type pingSpec struct {
@@ -904,6 +919,14 @@ func partB(run *hx.Run) {
 	emitPing("B:ping", p, long, true)
 	emitPing("B:ping", pingSpec{1, 765, []int{0, 1, 2}}, long, true) // other route generation: own entries
 	emitPing("B:ping", pingSpec{0, 47, []int{0, 1, 2}}, long, true)  // other protocol: own entries
+	// fixed: the client protocol is part of the cache key, also for protocol numbers Gate's version table does not
+	// list (newer releases, snapshots 0x4000xxxx, gaps, 0, negative): within the TTL each number gets its own fetch
+	start()
+	for _, pair := range unlistedPairs {
+		emitPing("B:ping-proto", pingSpec{0, pair[0], []int{0, 1}}, long, true)
+		emitPing("B:ping-proto", pingSpec{0, pair[1], []int{0, 1}}, long, true)
+		emitPing("B:ping-proto", pingSpec{0, pair[0], []int{0, 1}}, long, true) // cached, for its own number
+	}
 	// fixed: cache disabled
 	start()
 	emitPing("B:ping-nocache", p, -1, true)
@@ -930,7 +953,7 @@ func partB(run *hx.Run) {
 					t := r.Intn(j + 1)
 					perm[j], perm[t] = perm[t], perm[j]
 				}
-				ps := pingSpec{uint64(r.Intn(2)), hx.Pick(r, []int{765, 47}), perm[:k]}
+				ps := pingSpec{uint64(r.Intn(2)), pickProto(r), perm[:k]}
 				switch {
 				case short:
 					emitPing("B:ping-short", ps, 30, r.Bool())
@@ -1289,7 +1312,7 @@ func partBTimeouts(run *hx.Run, f *farm, sm *lite.StrategyManager, nb int) {
 				if r.Chance(1, 3) {
 					ttl = -1
 				}
-				ops = append(ops, ping(uint64(r.Intn(2)), hx.Pick(r, []int{765, 47}), ttl, r.Bool(), cands...))
+				ops = append(ops, ping(uint64(r.Intn(2)), pickProto(r), ttl, r.Bool(), cands...))
 			case x < 7:
 				ops = append(ops, mode(r.Intn(nb), r.Chance(1, 3)))
 			default:
